@@ -744,55 +744,54 @@ mod v_iface_seq {
         };
     }
 
-    /// two ICMPv6 messages of types `t1`, `t2` with N1 / N2 octets of ICMPv6 (type concrete, all other octets free),
-    /// hop limit `hop`, then the echo request; returns (reply to frame 1, reply to frame 2, socket has a message)
+    /// two ICMPv6 messages of types `t1`, `t2` in packets of T1 / T2 octets (IPv6 header and type octet concrete, all other
+    /// ICMPv6 octets free), hop limit `hop`, then the echo request; returns (reply to frame 1, reply to frame 2, socket has a
+    /// message).  The packets are whole symbolic arrays whose header octets are overwritten at constant indices and the
+    /// harnesses run with field sensitivity up to 128 octets: a 96-octet frame assembled with copy_from_slice lost the
+    /// constness of its next-header octet, and symbolic execution (every extension header and message parser) did not finish.
     #[cfg(all(feature = "proto-ipv6", feature = "medium-ip", feature = "socket-icmp"))]
-    fn icmp6_seq_case<const N1: usize, const N2: usize>(t1: u8, t2: u8, hop: u8, q1: bool) -> (bool, bool, bool) {
+    fn icmp6_seq_case<const T1: usize, const T2: usize>(t1: u8, t2: u8, hop: u8, q1: bool) -> (bool, bool, bool) {
         icmp6_env!(iface, sockets, ih);
-        let mut a = [0u8; 104];
-        let pa: [u8; N1] = kani::any();
-        a[40..40 + N1].copy_from_slice(&pa);
-        ipv6_header(&mut a, N1, 58, hop, &any_src6(), &any_dst6());
+        let mut a: [u8; T1] = kani::any();
+        ipv6_header(&mut a, T1 - 40, 58, hop, &any_src6(), &any_dst6());
         a[40] = t1;
         if q1 {
-            // quoted packet of an ICMPv6 error: version nibble 6 and a payload length that the quote can hold make it parse
+            // quoted packet of an ICMPv6 error: version nibble 6
             a[48] = 0x60;
         }
-        let r1 = iface.inner.process_ip(&mut sockets, PacketMeta::default(), &a[..40 + N1], &mut iface.fragments).is_some();
+        let r1 = iface.inner.process_ip(&mut sockets, PacketMeta::default(), &a[..], &mut iface.fragments).is_some();
         let got1 = sockets.get::<icmp::Socket>(ih).can_recv();
-        let mut b = [0u8; 104];
-        let pb: [u8; N2] = kani::any();
-        b[40..40 + N2].copy_from_slice(&pb);
-        ipv6_header(&mut b, N2, 58, hop, &any_src6(), &any_dst6());
+        let mut b: [u8; T2] = kani::any();
+        ipv6_header(&mut b, T2 - 40, 58, hop, &any_src6(), &any_dst6());
         b[40] = t2;
-        let r2 = iface.inner.process_ip(&mut sockets, PacketMeta::default(), &b[..40 + N2], &mut iface.fragments).is_some();
+        let r2 = iface.inner.process_ip(&mut sockets, PacketMeta::default(), &b[..], &mut iface.fragments).is_some();
         crate::vassert!(!r1 && !r2, "prop:c03_icmpv6_errors_and_control_messages_on_raw_ip_never_answered");
         crate::vassert!(echo6_answered(&mut iface, &mut sockets), "prop:c03_echo_request_answered_after_arbitrary_frames");
         (r1, r2, got1)
     }
 
-    // @harness props=C03 cfg=KI6i tier=q to=1500 mem=12 unwind=18 opts=nomem covers=2 funcs=InterfaceInner::process_ip;InterfaceInner::process_ipv6;InterfaceInner::process_icmpv6;Icmpv6Repr::parse;icmp::Socket::accepts_v6;icmp::Socket::process_v6;InterfaceInner::icmpv6_reply bounds=raw-IP_medium,_own_fe80::1_and_2001:db8::1,_one_ICMP_socket_bound_to_UDP_port_53_(64-byte_receive_ring);_frame_1:_ICMPv6_destination_unreachable_(type_1)_of_56_octets:_code,_checksum,_unused_word,_quoted_IPv6_header_(first_octet_0x60)_and_8_quoted_octets_free;_frame_2:_time_exceeded_(type_3)_of_56_free_octets;_source_2001:db8::xx_or_fe80::xx,_destination_2001:db8::1_or_ff02::1,_hop_limit_64;_frame_3:_echo_request
+    // @harness props=C03 cfg=KI6i tier=q to=900 mem=12 unwind=18 opts=nomem,fs128 covers=2 funcs=InterfaceInner::process_ip;InterfaceInner::process_ipv6;InterfaceInner::process_icmpv6;Icmpv6Repr::parse;icmp::Socket::accepts_v6;icmp::Socket::process_v6;InterfaceInner::icmpv6_reply bounds=raw-IP_medium,_own_fe80::1_and_2001:db8::1,_one_ICMP_socket_bound_to_UDP_port_53_(64-byte_receive_ring);_frame_1:_ICMPv6_destination_unreachable_(type_1)_of_56_octets:_code,_checksum,_unused_word,_quoted_IPv6_header_(first_octet_0x60)_and_8_quoted_octets_free;_frame_2:_time_exceeded_(type_3)_of_56_free_octets;_source_2001:db8::xx_or_fe80::xx,_destination_2001:db8::1_or_ff02::1,_hop_limit_64;_frame_3:_echo_request
     #[cfg(all(feature = "proto-ipv6", feature = "medium-ip", feature = "socket-icmp"))]
     #[kani::proof]
     pub(crate) fn seq6_icmp_errors_then_echo() {
-        let (_r1, _r2, got1) = icmp6_seq_case::<56, 56>(1, 3, 64, true);
+        let (_r1, _r2, got1) = icmp6_seq_case::<96, 96>(1, 3, 64, true);
         kani::cover!(got1, "destination unreachable quoting a datagram from port 53 delivered to the socket");
         kani::cover!(!got1, "first message not delivered");
     }
 
-    // @harness props=C03 cfg=KI6i tier=q to=1500 mem=12 unwind=18 opts=nomem covers=1 funcs=InterfaceInner::process_ip;InterfaceInner::process_ipv6;InterfaceInner::process_icmpv6;Icmpv6Repr::parse;NdiscRepr::parse;NdiscOptionRepr::parse bounds=raw-IP_medium_(NDISC_is_parsed,_not_acted_upon),_own_fe80::1_and_2001:db8::1,_one_ICMP_socket;_frame_1:_neighbor_solicitation_(type_135)_of_32_octets_(code,_checksum,_reserved,_target,_one_8-octet_option_free);_frame_2:_router_advertisement_(type_134)_of_48_octets_(16_header_octets_and_32_option_octets_free);_hop_limit_255;_frame_3:_echo_request
+    // @harness props=C03 cfg=KI6i tier=q to=900 mem=12 unwind=18 opts=nomem,fs128 covers=1 funcs=InterfaceInner::process_ip;InterfaceInner::process_ipv6;InterfaceInner::process_icmpv6;Icmpv6Repr::parse;NdiscRepr::parse;NdiscOptionRepr::parse bounds=raw-IP_medium_(NDISC_is_parsed,_not_acted_upon),_own_fe80::1_and_2001:db8::1,_one_ICMP_socket;_frame_1:_neighbor_solicitation_(type_135)_of_32_octets_(code,_checksum,_reserved,_target,_one_8-octet_option_free);_frame_2:_router_advertisement_(type_134)_of_48_octets_(16_header_octets_and_32_option_octets_free);_hop_limit_255;_frame_3:_echo_request
     #[cfg(all(feature = "proto-ipv6", feature = "medium-ip", feature = "socket-icmp"))]
     #[kani::proof]
     pub(crate) fn seq6_ndisc_then_echo() {
-        let (_r1, _r2, got1) = icmp6_seq_case::<32, 48>(135, 134, 255, false);
+        let (_r1, _r2, got1) = icmp6_seq_case::<72, 88>(135, 134, 255, false);
         kani::cover!(!got1, "NDISC messages are not delivered to a socket bound to a UDP port");
     }
 
-    // @harness props=C03 cfg=KI6i tier=q to=1500 mem=12 unwind=18 opts=nomem covers=1 funcs=InterfaceInner::process_ip;InterfaceInner::process_ipv6;InterfaceInner::process_icmpv6;Icmpv6Repr::parse;MldRepr::parse;InterfaceInner::process_mldv2 bounds=raw-IP_medium,_own_fe80::1_and_2001:db8::1,_one_ICMP_socket;_frame_1:_MLD_query_(type_130)_of_44_octets_(all_but_the_type_free:_max_response,_group,_flags,_QQIC,_source_count,_one_source);_frame_2:_MLDv2_report_(type_143)_of_28_free_octets;_hop_limit_1;_frame_3:_echo_request
+    // @harness props=C03 cfg=KI6i tier=q to=900 mem=12 unwind=18 opts=nomem,fs128 covers=1 funcs=InterfaceInner::process_ip;InterfaceInner::process_ipv6;InterfaceInner::process_icmpv6;Icmpv6Repr::parse;MldRepr::parse;InterfaceInner::process_mldv2 bounds=raw-IP_medium,_own_fe80::1_and_2001:db8::1,_one_ICMP_socket;_frame_1:_MLD_query_(type_130)_of_44_octets_(all_but_the_type_free:_max_response,_group,_flags,_QQIC,_source_count,_one_source);_frame_2:_MLDv2_report_(type_143)_of_28_free_octets;_hop_limit_1;_frame_3:_echo_request
     #[cfg(all(feature = "proto-ipv6", feature = "medium-ip", feature = "socket-icmp"))]
     #[kani::proof]
     pub(crate) fn seq6_mld_then_echo() {
-        let (_r1, _r2, got1) = icmp6_seq_case::<44, 28>(130, 143, 1, false);
+        let (_r1, _r2, got1) = icmp6_seq_case::<84, 68>(130, 143, 1, false);
         kani::cover!(!got1, "MLD messages are not delivered to a socket bound to a UDP port");
     }
 
@@ -886,14 +885,14 @@ mod v_iface_seq {
         crate::vassert!(ok, "prop:c03_echo_request_answered_after_arbitrary_frames");
     }
 
-    // @harness props=C03 cfg=KLi tier=q to=1500 mem=12 unwind=12 opts=nomem,fs256 covers=2 funcs=InterfaceInner::process_ieee802154;Ieee802154Repr::parse;InterfaceInner::process_sixlowpan;InterfaceInner::process_sixlowpan_fragment;PacketAssemblerSet::get;PacketAssembler::add;InterfaceInner::sixlowpan_to_ipv6;InterfaceInner::process_ipv6;InterfaceInner::process_icmpv6 bounds=IEEE_802.15.4_medium,_extended_addresses,_PAN_0xabcd,_own_fe80::1,_one_ICMP_socket,_2_reassembly_slots_of_256_octets;_frame_1:_FRAG1_with_free_datagram_size_<256_and_free_tag,_IPHC_7a_33_+_ICMPv6_echo_header_(48_octets_uncompressed);_frame_2:_FRAGN_with_free_datagram_size_<256,_tag_and_8_data_octets,_offset_6;_frame_3:_unfragmented_IPHC_echo_request_from_fe80::2;_reply_packet_checked_(not_its_compression)
+    // @harness props=C03 cfg=KLi tier=q to=900 mem=12 unwind=12 opts=nomem,fs1600 covers=2 funcs=InterfaceInner::process_ieee802154;Ieee802154Repr::parse;InterfaceInner::process_sixlowpan;InterfaceInner::process_sixlowpan_fragment;PacketAssemblerSet::get;PacketAssembler::add;InterfaceInner::sixlowpan_to_ipv6;InterfaceInner::process_ipv6;InterfaceInner::process_icmpv6 bounds=IEEE_802.15.4_medium,_extended_addresses,_PAN_0xabcd,_own_fe80::1,_one_ICMP_socket,_2_reassembly_slots_of_256_octets;_frame_1:_FRAG1_with_free_datagram_size_<256_and_free_tag,_IPHC_7a_33_+_ICMPv6_echo_header_(48_octets_uncompressed);_frame_2:_FRAGN_with_free_datagram_size_<256,_tag_and_8_data_octets,_offset_6;_frame_3:_unfragmented_IPHC_echo_request_from_fe80::2;_reply_packet_checked_(not_its_compression)
     #[cfg(all(feature = "medium-ieee802154", feature = "proto-sixlowpan-fragmentation", feature = "socket-icmp"))]
     #[kani::proof]
     pub(crate) fn seq_lowpan_frag1_fragn_then_echo() {
         lowpan_seq_case(true, true, false);
     }
 
-    // @harness props=C03 cfg=KLi tier=q to=1500 mem=12 unwind=12 opts=nomem,fs256 covers=2 funcs=InterfaceInner::process_ieee802154;InterfaceInner::process_sixlowpan;InterfaceInner::process_sixlowpan_fragment;PacketAssemblerSet::get;PacketAssembler::add;InterfaceInner::process_ipv6;InterfaceInner::process_icmpv6 bounds=as_seq_lowpan_frag1_fragn_then_echo_without_frame_1:_FRAGN_with_free_datagram_size_<256,_tag,_OFFSET_and_8_data_octets_on_fresh_reassembly_slots,_then_the_echo_request
+    // @harness props=C03 cfg=KLi tier=q to=900 mem=12 unwind=12 opts=nomem,fs1600 covers=2 funcs=InterfaceInner::process_ieee802154;InterfaceInner::process_sixlowpan;InterfaceInner::process_sixlowpan_fragment;PacketAssemblerSet::get;PacketAssembler::add;InterfaceInner::process_ipv6;InterfaceInner::process_icmpv6 bounds=as_seq_lowpan_frag1_fragn_then_echo_without_frame_1:_FRAGN_with_free_datagram_size_<256,_tag,_OFFSET_and_8_data_octets_on_fresh_reassembly_slots,_then_the_echo_request
     #[cfg(all(feature = "medium-ieee802154", feature = "proto-sixlowpan-fragmentation", feature = "socket-icmp"))]
     #[kani::proof]
     pub(crate) fn seq_lowpan_fragn_free_offset_then_echo() {
